@@ -159,7 +159,7 @@ func RunC18(d *Driver) *Report {
 		files = append(files, tf{"big.evy", big, 0o640, false, ""}, tf{"e.evy", "if true\nprint 1\nelse\nprint 2\nend\n", 0o555, false, ""}, tf{"f.evy", "print   1\n", 0o775, false, ""}, tf{"g.evy", "print   2\n", 0o464, false, ""})
 	}
 	faults := []string{"error=ENOSPC", "error=EIO", "error=EACCES", "signal=KILL"}
-	r.Rule = fmt.Sprintf("the evy binary is rebuilt from the working tree; for %d source files of different modes (one reached through a symbolic link) and every file-system system call of `evy fmt -w` after the target has been read (found with a fault-free strace run), each of %v is injected with `strace -e inject=…:when=k`: afterwards the file must hold its original or the complete formatted text with unchanged permission bits, and exit status 0 must mean formatted. The fault-free system-call sequence is compared with the call list the Lean theorems are about. Also: unparsable files untouched with non-zero status; `fmt -c` exits 0 exactly for formatted input and writes nothing, also over several files in every order; -w on stdin rejected. Non-trivial = distinct (file, syscall, occurrence, fault)", len(files), faults)
+	r.Rule = fmt.Sprintf("the evy binary is rebuilt from the working tree; for %d source files of different modes (one reached through a symbolic link) and every file-system system call of `evy fmt -w` after the target has been read (found with a fault-free strace run), each of %v is injected with `strace -e inject=…:when=k`: afterwards the file must hold its original or the complete formatted text with unchanged permission bits, and exit status 0 must mean formatted. The fault-free system-call sequence is compared with the call list the Lean theorems are about. Also: EIO and EINTR on the first three reads of the source file itself (found by path), for fmt -w and fmt -c; unparsable files untouched with non-zero status; `fmt -c` exits 0 exactly for formatted input and writes nothing, also over several files in every order; -w on stdin rejected. Non-trivial = distinct (file, syscall, occurrence, fault)", len(files), faults)
 	model, _ := d.Ask("shape writeAtomically")
 	for _, f := range files {
 		path := filepath.Join(dir, f.name)
